@@ -47,6 +47,9 @@ P = {
  "C19": ("model_checking", "Space.tla (estimate vs stored size, rollover rule) model-checked by TLC; its fill classes expanded to every byte of free space around both sizes on a real Database",
          "TLC checks NoOverflow/AcceptedWithinOneRetry/AcceptedAtOnce for every fill level and (estimate, stored) pair of the writer thread's space rule; the class table (free vs estimate, free vs stored, compression shrinks/same) with prescribed outcome and rollover count is expanded on a real Database: segment sizes x compression x payload kinds x shapes x lengths, the live segment filled so that free space takes every value from min(estimate,stored)-2 to max+2, then the append's outcome, rollover and readability are compared.",
          "Domain: transactions whose uncompressed estimate and stored size fit an empty segment; stored size is measured on a scratch database (it can differ by a byte or two between runs with compression on, which does not affect the prescribed outcome).", "5/C19", "h-store"),
+ "C16": ("model_checking", "recorded outcomes of racing clients explained by TLC as a serial order of EventStore.tla (TraceSerial.tla)",
+         "Clients race conflicting optimistic appends on shared streams/partitions of a real Database (1-4 buckets, 1-2 writer threads); every call with its outcome and the final latest versions/sequences are recorded; TLC searches TraceSerial.tla for a serial order of the reference model that reproduces every accepted call's sequences and versions, rejects every rejected call in some state of the order and ends in the recorded final state. No order = violation.",
+         "Serial order need not respect real-time order of non-overlapping calls; per-event versions of an accepted call are derived from its reported latest stream version.", "5/C16", "h-store"),
 }
 
 NOT_YET = "not yet built in this session (planned: see DESIGN.md section 5); no claim is made"
